@@ -109,9 +109,5 @@ def pr : Ctx → Expr → List Char
     if needParen c e then ['('] ++ body ++ [')'] else body
 
 def run (s : String) := (expr (s.length+1) s.toList false)
-#eval run "a + (b + 1) << 3 + 2*x add dbl (y shl 2)"
-#eval run "x << 08"
-#eval (pr .top (Expr.add (.ident ['a']) (.add (.ident ['b']) (.shift (.double (.operand 0)) 3))))
-#eval let t := (Expr.add (.ident ['a']) (.add (.ident ['b']) (.shift (.double (.operand 0)) 3))); (expr 100 (pr .top t) false).1.map (·.1) == some t
 
 end P.Peg
